@@ -40,6 +40,15 @@ PARENT_CTX = {
 }
 
 
+def with_inline_rules(d):
+    head = next((c for c in d["children"] if c["tag"] == "mj-head"), None)
+    if head is None:
+        head = N("mj-head")
+        d["children"].insert(0, head)
+    head["children"].append(N("mj-style", {"inline": "inline"}, text="\n.kk { color: red; letter-spacing: 2px }\n.jj { margin: 1px }\n"))
+    return d
+
+
 def with_parent(d, tag):
     """set the PARENT_CTX attributes on every parent of a <tag> element of document d"""
     ptag, attrs = PARENT_CTX[tag]
@@ -138,6 +147,10 @@ def matrix(ck, hb, facts):
         table["mj-wrapper"] = {a: t for a, t in table["mj-section"].items() if a in (
             "background-color", "border", "border-bottom", "border-left", "border-right", "border-top", "border-radius", "padding", "padding-bottom",
             "padding-left", "padding-right", "padding-top", "text-align", "css-class")}
+    # css-class is a global attribute (not in the per-tag table): every body component resolves it
+    for t in list(table):
+        if t in facts["factory_tags"] and t not in ("mjml", "mj-head", "mj-title", "mj-preview", "mj-font", "mj-style", "mj-breakpoint", "mj-attributes", "mj-all", "mj-class", "mj-raw"):
+            table[t] = dict(table[t], **{"css-class": "string"})
     jobs, meta = [], []
     rng = ck.rng
     for tag in sorted(table):
@@ -151,6 +164,9 @@ def matrix(ck, hb, facts):
             variants = [(False, False)] + ([(True, False)] if tag in PARENT_CTX else []) + ([(False, True)] if typ == "color" else [])
             for ctx, short in variants:
                 wrap = (lambda d: with_parent(d, tag)) if ctx else (lambda d: d)
+                if attr == "css-class":
+                    # what a class does besides being written: it selects inline mj-style rules - also when it arrives through mj-class
+                    wrap = with_inline_rules
                 name = tag + "@parent" if ctx else (tag + "#short-hex" if short else tag)
                 if short:       # three-digit hex colours: a component that normalises the value on one route only treats sources differently
                     v, w = "#abc", "#DeF"
@@ -236,7 +252,7 @@ def run(ck):
     for k, v in sorted(verdict.items()):
         if v != "bad":
             continue
-        if (k[0], k[1]) in known:
+        if (k[0], k[1]) in known and k[2] in known[(k[0], k[1])].get("levels", LEVELS):
             if known[(k[0], k[1])]["id"] not in announced:
                 announced.add(known[(k[0], k[1])]["id"])
                 ck.known("%s: %s" % (known[(k[0], k[1])]["id"], known[(k[0], k[1])]["what"]))
